@@ -99,6 +99,8 @@ inductive HOp where
   | control (s : Nat) (rc : Rcpt)
   | transient (s : Nat) (a : TAct)
   | state
+  /-- real-concurrency operation of the harness: the last of the racing permission updates of `s` is `p` -/
+  | storm (s : Nat) (p : List String)
   deriving Repr
 
 /-- The acting session of a client operation. -/
@@ -145,6 +147,7 @@ def Judge.track (j : Judge) (op : HOp) (outcome : String) : Judge :=
   | .leave s => j.set s fun x => { x with room := none, inCall := false }
   | .perms s p => j.set s fun x => if x.live && x.room.isSome then { x with perms := some p } else x
   | .permsDirect s p => j.set s fun x => if x.live then { x with perms := some p } else x
+  | .storm s p => j.set s fun x => if x.live then { x with perms := some p } else x
   | .incall s r f => j.set s fun x => if x.live && x.room == some r then { x with inCall := f } else x
   | .incallAll r f =>
     { j with told := j.told.map fun x =>
@@ -251,7 +254,10 @@ def refusalViolation (j : Judge) (op : HOp) (msgs : List String) : Option String
 def Judge.observe (j : Judge) (op : HOp) (impl : List String) : Judge × String :=
   match sections impl with
   | [[outcome], msgs, log, open_] =>
-    let v1 := (logViolation j op log).orElse fun _ => (msgViolation j op msgs).orElse fun _ => refusalViolation j op msgs
+    -- a storm is judged on the objects that are open at rest only
+    let v1 := match op with
+      | .storm .. => none
+      | _ => (logViolation j op log).orElse fun _ => (msgViolation j op msgs).orElse fun _ => refusalViolation j op msgs
     let j' := j.track op outcome
     match v1.orElse fun _ => openViolation j' open_ with
     | some v => (j', v)
